@@ -133,6 +133,20 @@ CHECKS = {
         note="Interim (pre-release) magics are not generated. PyPy header forms as observed in the corpus.",
         technique="TLC exhaustive enumeration of header forms, behaviours replayed into load_module, TLC trace judge; importlib validators as oracle",
     ),
+    "C09": dict(
+        category="model_checking",
+        text="Spec S8. OpTables.tla: the 39 tables xdis hands out x 256 opcode numbers as a state space; TLC checks 12 invariants in every state: "
+             "names<->numbers bijection, categorised opcodes defined and operand-taking unless CPython's table has the same gap, jrel/jabs disjoint, "
+             "EXTENDED_ARG and its shift, and equality with the live opcode module of the nine installed interpreters (names, HAVE_ARGUMENT/hasarg, "
+             "seven category sets). OpTablesTrace.tla replays the recorded derivation of every table (init/def/rm/finalize, hook H2) on an abstract "
+             "table: each logged edit must be a step of the model, rm must remove a current pair, finalize must find a bijection. S14: every corpus "
+             "code object is judged by BytecodeTrace.tla under xdis's table of its version (tiling, target alignment, operand index ranges) - the "
+             "only oracle for versions without an interpreter.",
+        design_ref="DESIGN.md section 5 C09, specs S8 S14",
+        note="For 1.0-2.6, 3.0-3.5, PyPy: no reference table in the sandbox; a renumbering that keeps category/operand-ness/bijection and touches "
+             "no opcode used by a corpus file of that version is not detectable here.",
+        technique="TLC exhaustive model checking over (table, opcode); TLC trace validation of the recorded table derivation; well-formedness of real code under the table",
+    ),
 }
 
 NOT_YET = "check not built yet in this round (planned: see DESIGN.md section 5); not claimed until its machinery exists"
